@@ -252,6 +252,8 @@ def run_shard(shard):
             step = 1 if tier == "thorough" and sent < 400 else (5 if sent < 400 else 61)
             if tier == "quick" and n % 3:
                 step = 0
+            if any(isinstance(v, str) and any(ord(ch) > 126 for ch in v) for _, v in assignment):
+                step = 1  # non-ASCII text: every cut position (a cut may fall inside a multi-byte sequence)
             if step:
                 for k in range(1, sent, step):
                     obs = execute(p, target, assignment, ("cut", k), seed)
